@@ -1,5 +1,544 @@
 package udphop
 
-import "testing"
+// C19 harness, unit "hop" (injected by overlay into extras/transport/udphop, instrumented:
+// vsync, vchan, vtime, vrand, vsched.Go): the real udpHopPacketConn over a fake ListenUDPFunc
+// that hands out vnet sockets (census of every socket ever created), under the controlled
+// scheduler. The hop timer is the virtual clock; whether a listen fails, which port index is
+// drawn at a hop and the jitter draw are environment choices.
 
-func TestVerifC19Hop(t *testing.T) {}
+import (
+	"errors"
+	"fmt"
+	"net"
+	"strings"
+	"testing"
+	"time"
+
+	"verif.local/engine/explore"
+	"verif.local/engine/vchan"
+	"verif.local/engine/vnet"
+	"verif.local/engine/vrand"
+	"verif.local/engine/vsched"
+	"verif.local/engine/vsync"
+	"verif.local/engine/vtime"
+)
+
+const (
+	c19S = int64(time.Second)
+	// c19Never as a close time: the closer thread is not started, main closes at the horizon
+	c19Never = time.Duration(-1)
+)
+
+var c19HopServerIP = net.IPv4(10, 9, 8, 7)
+
+type c19Cfg struct {
+	name     string
+	portExpr string // resolved through ResolveUDPHopAddr
+	iv       HopIntervalConfig
+	window   time.Duration // main sleeps window, then inspects the quiescent state; repeated windows times
+	windows  int
+
+	writer, reader, setter, injector bool
+	closeTimes                       []time.Duration // closer thread: Close after one of these (free choice); nil = no closer
+	failChoice                       bool            // every listen after the first may fail (environment choice)
+	failFirst                        bool            // the constructor's listen may fail too
+	portKind, jitterKind             vsched.ChoiceKind
+	quick, thorough                  explore.Bounds
+}
+
+type c19Inj struct {
+	payload string
+	sock    int
+}
+
+type c19World struct {
+	e   *vsched.Exec
+	cfg *c19Cfg
+	set map[int]bool // configured server ports
+
+	socks       []*vnet.PacketConn // every socket ever created, in creation order
+	listenCalls int
+	listenFails int
+	lastListen  int64 // virtual time of the previous hop attempt (-1: none)
+
+	conn          *udpHopPacketConn
+	closeCalled   bool // some thread has entered the first Close
+	closeReturned bool // a Close call has returned
+	sent          map[string]int
+	injected      []c19Inj
+	injectedSet   map[string]bool
+	delivered     map[string]int
+	seq           int
+}
+
+func (w *c19World) open() int {
+	n := 0
+	for _, s := range w.socks {
+		if !s.Closed() {
+			n++
+		}
+	}
+	return n
+}
+
+// listen is the fake ListenUDPFunc.
+func (w *c19World) listen() (net.PacketConn, error) {
+	e := w.e
+	w.listenCalls++
+	now := e.Now()
+	if w.listenCalls > 1 {
+		// hop attempts are spaced by at least the minimum interval (the timer is re-armed after
+		// the hop; scheduling delay can only lengthen the spacing)
+		if w.lastListen >= 0 && now-w.lastListen < int64(w.cfg.iv.Min) {
+			e.Fail("hop attempts %.3fs apart, configured minimum interval %v", float64(now-w.lastListen)/1e9, w.cfg.iv.Min)
+		}
+		w.lastListen = now
+	} else {
+		w.lastListen = 0
+	}
+	if w.cfg.failChoice && (w.listenCalls > 1 || w.cfg.failFirst) {
+		if e.Choose(2, vsched.KEnv, "listen-fail") == 1 {
+			w.listenFails++
+			e.Logf("listen#%d fails (open=%d)", w.listenCalls, w.open())
+			return nil, errors.New("c19: listen failed")
+		}
+	}
+	idx := len(w.socks)
+	s := vnet.NewPacketConn(fmt.Sprintf("s%d", idx), 40000+idx)
+	s.OnSend = func(_ *vnet.PacketConn, p vnet.Packet) { w.onSend(idx, p) }
+	w.socks = append(w.socks, s)
+	if n := w.open(); n > 3 {
+		e.Fail("%d local sockets open inside a hop (after creating s%d); at most 3 transiently", n, idx)
+	}
+	e.Logf("listen#%d -> s%d (open=%d)", w.listenCalls, idx, w.open())
+	return s, nil
+}
+
+// onSend observes every successful WriteTo on an inner socket.
+func (w *c19World) onSend(idx int, p vnet.Packet) {
+	newest := len(w.socks) - 1
+	if idx != newest {
+		w.e.Fail("packet %q sent from socket s%d while the newest local socket is s%d", p.Data, idx, newest)
+	}
+	ua, ok := p.Addr.(*net.UDPAddr)
+	switch {
+	case !ok:
+		w.e.Fail("packet %q sent to %T %v, not a UDP address of the server", p.Data, p.Addr, p.Addr)
+	case !ua.IP.Equal(c19HopServerIP):
+		w.e.Fail("packet %q sent to IP %v, server IP is %v", p.Data, ua.IP, c19HopServerIP)
+	case !w.set[ua.Port]:
+		w.e.Fail("packet %q sent to port %d which is not in the configured set %s", p.Data, ua.Port, w.cfg.portExpr)
+	default:
+		w.e.Logf("send %s: s%d -> :%d", p.Data, idx, ua.Port)
+	}
+	w.sent[string(p.Data)]++
+}
+
+// write performs one WriteTo through the hopping conn and checks its result.
+func (w *c19World) write(tag string, to net.Addr) {
+	w.seq++
+	payload := fmt.Sprintf("%s%d", tag, w.seq)
+	closedBefore := w.closeReturned
+	n, err := w.conn.WriteTo([]byte(payload), to)
+	switch {
+	case err == nil:
+		if closedBefore {
+			w.e.Fail("WriteTo(%s) succeeded after Close had returned", payload)
+		}
+		if n != len(payload) || w.sent[payload] != 1 {
+			w.e.Fail("WriteTo(%s) returned n=%d err=nil but %d packets reached an inner socket", payload, n, w.sent[payload])
+		}
+	case errors.Is(err, net.ErrClosed):
+		if !w.closeCalled {
+			w.e.Fail("WriteTo(%s) returned net.ErrClosed before any Close", payload)
+		}
+		if w.sent[payload] != 0 {
+			w.e.Fail("WriteTo(%s) returned net.ErrClosed but the packet was sent", payload)
+		}
+		w.e.Logf("write %s: closed", payload)
+	default:
+		if closedBefore {
+			w.e.Fail("WriteTo(%s) after Close returned %v, want net.ErrClosed", payload, err)
+		} else {
+			w.e.Fail("WriteTo(%s) failed: %v", payload, err)
+		}
+	}
+}
+
+// inject delivers one packet to socket idx if it is open (a closed port receives nothing).
+func (w *c19World) inject(tag string, idx int) {
+	if idx < 0 || idx >= len(w.socks) || w.socks[idx].Closed() {
+		return
+	}
+	w.seq++
+	payload := fmt.Sprintf("%s%d@s%d", tag, w.seq, idx)
+	w.socks[idx].Inject([]byte(payload), &net.UDPAddr{IP: c19HopServerIP, Port: 20000})
+	w.injected = append(w.injected, c19Inj{payload, idx})
+	w.injectedSet[payload] = true
+}
+
+// got records one packet returned by ReadFrom.
+func (w *c19World) got(who string, b []byte, addr net.Addr) {
+	p := string(b)
+	w.delivered[p]++
+	switch {
+	case strings.HasPrefix(p, "late"):
+		w.e.Fail("ReadFrom returned packet %q which arrived after Close", p)
+	case !w.injectedSet[p]:
+		w.e.Fail("ReadFrom returned %q which was never injected (corrupted or invented packet)", p)
+	case w.delivered[p] > 1:
+		w.e.Fail("ReadFrom returned packet %q twice", p)
+	}
+	if addr == nil {
+		w.e.Fail("ReadFrom returned packet %q with a nil address", p)
+	}
+	w.e.Logf("%s got %s", who, p)
+}
+
+// drain lets the calling thread consume what is queued without blocking.
+func (w *c19World) drain(who string) {
+	buf := make([]byte, 64)
+	for vchan.Len(w.conn.recvQueue) > 0 {
+		n, addr, err := w.conn.ReadFrom(buf)
+		if err != nil {
+			if errors.Is(err, net.ErrClosed) && w.closeCalled {
+				return
+			}
+			w.e.Fail("ReadFrom with %d queued packets failed: %v", vchan.Len(w.conn.recvQueue)+1, err)
+			return
+		}
+		w.got(who, buf[:n], addr)
+	}
+}
+
+// rest inspects a quiescent state: every other thread is blocked, so the hop loop is parked on
+// its timer (no hop in progress).
+func (w *c19World) rest(where string) {
+	e := w.e
+	e.WaitIdle()
+	if w.closeCalled {
+		if !w.closeReturned {
+			e.Fail("%s: Close entered but not returned while every thread is blocked", where)
+		}
+		return
+	}
+	w.drain("main")
+	n := len(w.socks)
+	for i, s := range w.socks {
+		wantOpen := i >= n-2
+		if s.Closed() == wantOpen {
+			if wantOpen {
+				e.Fail("%s: between hops socket s%d (one of the newest two of %d) is closed; current and previous socket must stay open", where, i, n)
+			} else {
+				e.Fail("%s: between hops %d sockets open, s%d (of %d created) was never closed; at most two stay open", where, w.open(), i, n)
+			}
+		}
+	}
+	// every packet that arrived on a socket that is still the current or the previous one has
+	// been delivered (all threads are idle, nothing is in flight)
+	for _, in := range w.injected {
+		if in.sock >= n-2 && w.delivered[in.payload] == 0 {
+			e.Fail("%s: packet %s arrived on s%d (newest is s%d, no Close) but ReadFrom never delivered it", where, in.payload, in.sock, n-1)
+		}
+	}
+	e.Logf("%s: t=%.1fs created=%d open=%d fails=%d", where, float64(e.Now())/1e9, n, w.open(), w.listenFails)
+}
+
+// probe: at a quiescent point send one packet and let one packet arrive on the current and on
+// the previous socket; rest() then demands their delivery unless a hop or Close intervened.
+func (w *c19World) probe(k int) {
+	if w.closeCalled {
+		return
+	}
+	w.write(fmt.Sprintf("probe%d-", k), &net.UDPAddr{IP: net.IPv4(9, 9, 9, 9), Port: 9})
+	n := len(w.socks)
+	w.inject("cur", n-1)
+	w.inject("prev", n-2)
+	w.rest(fmt.Sprintf("after-probe%d", k))
+}
+
+// afterClose: the final-state oracle, run by main after a Close has returned.
+func (w *c19World) afterClose() {
+	e := w.e
+	e.WaitIdle()
+	for i, s := range w.socks {
+		if !s.Closed() {
+			e.Fail("after Close returned socket s%d (of %d ever created) is still open", i, len(w.socks))
+		}
+	}
+	// packets arriving now must never be returned
+	for i, s := range w.socks {
+		s.Inject([]byte(fmt.Sprintf("late@s%d", i)), &net.UDPAddr{IP: c19HopServerIP, Port: 20000})
+	}
+	e.WaitIdle()
+	w.write("post-close-", w.conn.Addr)
+	// ReadFrom never blocks; packets queued before Close may still come out; once the queue is
+	// empty the result is net.ErrClosed
+	buf := make([]byte, 64)
+	for i := 0; i < 3 && vchan.Len(w.conn.recvQueue) > 0; i++ {
+		n, addr, err := w.conn.ReadFrom(buf)
+		if err == nil {
+			w.got("main(post-close)", buf[:n], addr)
+		} else if !errors.Is(err, net.ErrClosed) {
+			e.Fail("ReadFrom after Close returned %v, want a queued packet or net.ErrClosed", err)
+		}
+	}
+	if vchan.Len(w.conn.recvQueue) == 0 {
+		if _, _, err := w.conn.ReadFrom(buf); !errors.Is(err, net.ErrClosed) {
+			e.Fail("ReadFrom after Close with an empty queue returned err=%v, want net.ErrClosed", err)
+		}
+	}
+	if err := w.conn.Close(); err != nil {
+		e.Fail("second Close returned %v, want nil", err)
+	}
+	for i, s := range w.socks {
+		if !s.Closed() {
+			e.Fail("after the second Close socket s%d is open", i)
+		}
+	}
+	e.WaitIdle()
+	if alive := e.Alive(); len(alive) > 0 {
+		e.Logf("threads alive after Close: %s", strings.Join(alive, " | "))
+	}
+	e.Logf("end: created=%d listens=%d fails=%d injected=%d", len(w.socks), w.listenCalls, w.listenFails, len(w.injected))
+}
+
+func c19Body(cfg *c19Cfg) func(e *vsched.Exec) {
+	return func(e *vsched.Exec) {
+		w := &c19World{e: e, cfg: cfg, set: map[int]bool{}, sent: map[string]int{}, injectedSet: map[string]bool{}, delivered: map[string]int{}, lastListen: -1}
+		vrand.SetSource(e, func(e *vsched.Exec, tag string, bound int64) int64 {
+			switch tag {
+			case "math/rand.Intn":
+				v := e.Choose(int(bound), cfg.portKind, "hop-port")
+				e.Logf("draw port index %d of %d", v, bound)
+				return int64(v)
+			case "math/rand.Int63n":
+				if e.Choose(2, cfg.jitterKind, "jitter") == 1 {
+					e.Logf("draw jitter max")
+					return bound - 1
+				}
+				e.Logf("draw jitter min")
+				return 0
+			}
+			e.Fail("unexpected random draw %s bound %d", tag, bound)
+			return 0
+		})
+		addr, err := ResolveUDPHopAddr("10.9.8.7:" + cfg.portExpr)
+		if err != nil {
+			e.Fail("ResolveUDPHopAddr(%s): %v", cfg.portExpr, err)
+			return
+		}
+		for _, p := range addr.Ports {
+			w.set[int(p)] = true
+		}
+		pc, err := NewUDPHopPacketConn(addr, cfg.iv, w.listen)
+		if err != nil {
+			if w.listenFails == 0 || len(w.socks) != 0 || pc != nil {
+				e.Fail("NewUDPHopPacketConn failed: %v (listen failures %d, sockets %d)", err, w.listenFails, len(w.socks))
+			}
+			e.WaitIdle()
+			return
+		}
+		w.conn = pc.(*udpHopPacketConn)
+		far := vtime.Epoch.Add(time.Hour)
+		var wg vsync.WaitGroup // harness threads (the conn's own goroutines are NOT waited for: they must exit by themselves)
+		spawn := func(name string, f func()) {
+			wg.Add(1)
+			vsched.GoNamed(name, func() { defer wg.Done(); f() })
+		}
+
+		if cfg.reader {
+			spawn("reader", func() {
+				buf := make([]byte, 64)
+				for i := 0; i < 64; i++ {
+					n, a, err := w.conn.ReadFrom(buf)
+					if err != nil {
+						if errors.Is(err, net.ErrClosed) {
+							if !w.closeCalled {
+								e.Fail("ReadFrom returned net.ErrClosed before any Close")
+							}
+							return
+						}
+						e.Fail("ReadFrom failed: %v", err)
+						return
+					}
+					w.got("reader", buf[:n], a)
+				}
+			})
+		}
+		if cfg.writer {
+			spawn("writer", func() {
+				w.write("w", w.conn.Addr)
+				e.Sleep(int64(cfg.window))
+				w.write("w", &net.UDPAddr{IP: net.IPv4(9, 9, 9, 9), Port: 9})
+			})
+		}
+		if cfg.setter {
+			spawn("setter", func() {
+				_ = w.conn.SetReadDeadline(far)
+				_ = w.conn.SetReadBuffer(1 << 20)
+				e.Sleep(int64(cfg.window))
+				_ = w.conn.SetWriteBuffer(1 << 20)
+				_ = w.conn.SetDeadline(far)
+				_ = w.conn.SetWriteDeadline(far)
+				if la := w.conn.LocalAddr(); la == nil {
+					e.Fail("LocalAddr returned nil")
+				}
+				_, _ = w.conn.SyscallConn()
+			})
+		}
+		if cfg.injector {
+			spawn("injector", func() {
+				for r := 0; r < 2; r++ {
+					n := len(w.socks)
+					w.inject("icur", n-1)
+					w.inject("iprev", n-2)
+					e.Sleep(int64(cfg.window))
+				}
+			})
+		}
+		if len(cfg.closeTimes) > 0 {
+			at := cfg.closeTimes[e.Choose(len(cfg.closeTimes), vsched.KFree, "close-at")]
+			if at != c19Never {
+				e.Logf("closer: Close at %v", at)
+				spawn("closer", func() {
+					e.Sleep(int64(at))
+					w.closeCalled = true
+					err := w.conn.Close()
+					w.closeReturned = true
+					if err != nil {
+						e.Fail("first Close returned %v", err)
+					}
+					e.Logf("closer: closed at t=%.1fs created=%d", float64(e.Now())/1e9, len(w.socks))
+					w.write("closer-post-", w.conn.Addr)
+				})
+			}
+		}
+
+		w.rest("start")
+		for k := 1; k <= cfg.windows && !w.closeCalled; k++ {
+			e.Sleep(int64(cfg.window))
+			w.rest(fmt.Sprintf("window%d", k))
+			w.probe(k)
+		}
+		first := !w.closeCalled
+		w.closeCalled = true
+		err = w.conn.Close()
+		w.closeReturned = true
+		if err != nil {
+			e.Fail("Close returned %v (first=%v)", err, first)
+		}
+		w.afterClose()
+		wg.Wait()
+		e.WaitIdle()
+		for i, s := range w.socks {
+			if !s.Closed() {
+				e.Fail("at the end socket s%d (of %d ever created) is open", i, len(w.socks))
+			}
+		}
+	}
+}
+
+func c19Scenarios() []*explore.Scenario {
+	fixed := HopIntervalConfig{Min: 5 * time.Second, Max: 5 * time.Second}
+	ranged := HopIntervalConfig{Min: 5 * time.Second, Max: 7 * time.Second}
+	q := explore.Bounds{P: 2, E: 1}
+	cfgs := []*c19Cfg{
+		// reads, writes and arriving packets against two hops
+		{name: "hop-rw-fixed-2ports", portExpr: "20000,20002", iv: fixed, window: 5500 * time.Millisecond, windows: 2,
+			writer: true, reader: true, injector: true,
+			portKind: vsched.KEnv, jitterKind: vsched.KEnv,
+			quick: q, thorough: explore.Bounds{P: 3, E: 2, MaxExec: 600000}},
+		// three hops, any of the four listens may fail
+		{name: "hop-fail-fixed-3ports", portExpr: "20000-20002", iv: fixed, window: 5500 * time.Millisecond, windows: 3,
+			reader: true, failChoice: true, failFirst: true,
+			portKind: vsched.KEnv, jitterKind: vsched.KEnv,
+			quick: q, thorough: explore.Bounds{P: 3, E: 2, MaxExec: 600000}},
+		// Close at any point: before start-up completes, just before / at the instant of a hop, later
+		{name: "hop-close-fixed-3ports", portExpr: "20000-20002", iv: fixed, window: 5500 * time.Millisecond, windows: 2,
+			writer: true, reader: true,
+			closeTimes: []time.Duration{c19Never, 0, 5*time.Second - 1, 5 * time.Second, 10 * time.Second},
+			portKind:   vsched.KEnv, jitterKind: vsched.KEnv,
+			quick: q, thorough: explore.Bounds{P: 3, E: 1, MaxExec: 600000}},
+		// deadline / buffer setters and arriving packets, jittered interval, listen failures
+		{name: "hop-set-range-2ports", portExpr: "20000-20001", iv: ranged, window: 7500 * time.Millisecond, windows: 2,
+			setter: true, reader: true, injector: true, failChoice: true,
+			portKind: vsched.KEnv, jitterKind: vsched.KEnv,
+			quick: q, thorough: explore.Bounds{P: 3, E: 2, MaxExec: 600000}},
+		// every sequence of port-index and jitter draws (free choices)
+		{name: "hop-draws-range-3ports", portExpr: "20000,20001,20005", iv: ranged, window: 7500 * time.Millisecond, windows: 2,
+			portKind: vsched.KFree, jitterKind: vsched.KFree,
+			quick: explore.Bounds{P: 1, E: 0}, thorough: explore.Bounds{P: 2, E: 0, MaxExec: 600000}},
+	}
+	var scs []*explore.Scenario
+	for _, c := range cfgs {
+		scs = append(scs, &explore.Scenario{Name: c.name, Quick: c.quick, Thorough: c.thorough,
+			Opt: vsched.Options{HorizonNS: 200 * c19S, MaxSteps: 20000}, Body: c19Body(c)})
+	}
+	scs = append(scs, c19JitterScenario())
+	return scs
+}
+
+// c19JitterScenario: every hop interval the conn computes lies in [Min,Max], for the extreme and
+// some interior draws of the random source (sequential; the draws are free choices).
+func c19JitterScenario() *explore.Scenario {
+	ivs := []HopIntervalConfig{{5 * time.Second, 5 * time.Second}, {5 * time.Second, 7 * time.Second}, {5 * time.Second, 5*time.Second + 1}, {30 * time.Second, time.Hour}}
+	return &explore.Scenario{Name: "jitter-in-range", Quick: explore.Bounds{P: 0, E: 0}, Thorough: explore.Bounds{P: 1, E: 0},
+		Opt: vsched.Options{HorizonNS: 200 * c19S, MaxSteps: 20000},
+		Body: func(e *vsched.Exec) {
+			iv := ivs[e.Choose(len(ivs), vsched.KFree, "interval-config")]
+			draws := 0
+			vrand.SetSource(e, func(e *vsched.Exec, tag string, bound int64) int64 {
+				if tag != "math/rand.Int63n" {
+					return 0
+				}
+				draws++
+				if bound <= 0 {
+					e.Fail("jitter drawn with bound %d for interval %v..%v", bound, iv.Min, iv.Max)
+					return 0
+				}
+				opts := []int64{0, bound - 1, bound / 2, 1, bound - 2}
+				k := e.Choose(len(opts), vsched.KFree, "jitter")
+				v := opts[k]
+				if v < 0 || v >= bound {
+					v = 0
+				}
+				e.Logf("draw %d: option %d of bound %d", draws, k, bound)
+				return v
+			})
+			n := 0
+			pc, err := NewUDPHopPacketConn(&UDPHopAddr{IP: c19HopServerIP, Ports: []uint16{20000}, PortStr: "20000"}, iv, func() (net.PacketConn, error) {
+				n++
+				return vnet.NewPacketConn(fmt.Sprintf("s%d", n), 40000+n), nil
+			})
+			if err != nil {
+				e.Fail("NewUDPHopPacketConn(%v): %v", iv, err)
+				return
+			}
+			u := pc.(*udpHopPacketConn)
+			e.WaitIdle()
+			for i := 0; i < 2; i++ {
+				d := u.nextHopInterval()
+				if d < iv.Min || d > iv.Max {
+					e.Fail("hop interval %v outside the configured range [%v,%v]", d, iv.Min, iv.Max)
+				}
+				e.Logf("interval %v in [%v,%v] min=%v max=%v", d, iv.Min, iv.Max, d == iv.Min, d == iv.Max)
+			}
+			if iv.Min == iv.Max && draws != 0 {
+				e.Logf("fixed interval drew randomness %d times", draws)
+			}
+			_ = u.Close()
+			e.WaitIdle()
+		}}
+}
+
+func TestVerifC19Hop(t *testing.T) {
+	explore.Main(t, "C19", c19Scenarios())
+}
+
+// TestVerifC19Probe prints the size of every scenario's default schedule (sizing aid, not run by vcheck).
+func TestVerifC19Probe(t *testing.T) {
+	for _, l := range explore.Probe(c19Scenarios()) {
+		t.Log(l)
+	}
+}
